@@ -319,6 +319,44 @@ pub fn id_programs() -> Vec<Prog> {
         .collect()
 }
 
+/// Service *definitions* whose methods are typed through alias chains to a function definition, under
+/// every assignment of alphabetically ordered names to the roles (a printer may list definitions in
+/// another order than the source, and the checker resolves method types while definitions are pending).
+pub fn alias_method_programs() -> Vec<Prog> {
+    let names = ["Aa", "Bb", "Cc", "Dd"];
+    let mut out = vec![];
+    // all assignments of 4 names to (function, alias1, alias2, service)
+    for f in 0..4 {
+        for a1 in 0..4 {
+            for a2 in 0..4 {
+                for sv in 0..4 {
+                    let mut used = [f, a1, a2, sv];
+                    used.sort();
+                    if used != [0, 1, 2, 3] {
+                        continue;
+                    }
+                    let (nf, na1, na2, ns) = (names[f], names[a1], names[a2], names[sv]);
+                    let func = PTy::func(vec![p(Prim::Text)], vec![], vec![Mode::Oneway]);
+                    let service = PTy::Service(vec![("direct".into(), PTy::var(nf)), ("one".into(), PTy::var(na1)), ("two".into(), PTy::var(na2))]);
+                    // source order: dependency order, and its reverse
+                    for rev in [false, true] {
+                        let mut defs = vec![(nf.to_string(), func.clone()), (na1.to_string(), PTy::var(nf)), (na2.to_string(), PTy::var(na1)), (ns.to_string(), service.clone())];
+                        if rev {
+                            defs.reverse();
+                        }
+                        out.push(Prog {
+                            defs,
+                            actor: Some(PActor::Service(PTy::Service(vec![("hub".into(), PTy::func(vec![], vec![PTy::var(ns)], vec![Mode::Query]))]))),
+                            actor_name: None,
+                        });
+                    }
+                }
+            }
+        }
+    }
+    out
+}
+
 /// Definition names: valid Candid identifiers that are not Candid keywords, including
 /// target-language keywords and names that collide after case conversion.
 pub fn def_names() -> Vec<String> {
